@@ -98,6 +98,8 @@ func (r *TimeRange) isInWeekdays(day time.Weekday) bool {
 }
 
 func (r *TimeRange) addWeekdayOffset(day time.Weekday, offset int) time.Weekday {
+	// Go's % keeps the sign of the dividend: normalise the offset so Sunday-1 is Saturday, not -1.
+	offset = (offset%7 + 7) % 7
 	return (day + time.Weekday(offset)) % 7
 }
 
